@@ -445,7 +445,105 @@ def r67(facts, res):
         res.bad(R, 'sweep-cost-filter', loc_of(b), 'the sweep keeps neighbours regardless of cost')
 
 
+def r68(facts, res):
+    """rank_cnds compares how far each candidate lets the parse continue and keeps the furthest ones: the comparison is only
+    meaningful when every candidate is test-parsed up to the SAME end point, i.e. the bound handed to lr_upto is built from
+    the function's own inputs (the error position) and constants - never from the candidate just applied."""
+    R = 'R6.8'
+    bs = [b for b in facts.lib_bodies(['lrpar']) if b.name == 'rank_cnds' and b.path.startswith('lrpar::cpctplus::')]
+    if len(bs) != 1:
+        res.lost(R, 'rank_cnds not found')
+        return
+    b = bs[0]
+    loops = b.loops()
+    calls = [(bb, t) for bb, t in b.calls_named('lr_upto') if any(bb in loops[h] for h in loops)]
+    if len(calls) != 1:
+        res.lost(R, 'expected one lr_upto call inside the candidate loop of rank_cnds, found %d' % len(calls))
+        return
+    cbb, ct = calls[0]
+    h = min((x for x in loops if cbb in loops[x]), key=lambda x: len(loops[x]))
+    w = widening_walker(b, facts)
+    w.widen_headers = set(loops) - {h}
+    w.widen_assigned = {x: loop_assigned(b, x) for x in w.widen_headers}
+    ps = [p for p in w.run(h, stop=lambda x: x not in loops[h]) if any(e[0] == 'call' and e[1] == cbb for e in p.events)]
+    if not ps:
+        res.lost(R, 'no path through the lr_upto call of rank_cnds')
+        return
+    bad = None
+    for p in ps:
+        e = [e for e in p.events if e[0] == 'call' and e[1] == cbb][0]
+        if len(e[3]) < 4:
+            bad = 'lr_upto is called with %d arguments' % len(e[3])
+            break
+        end = e[3][3]
+        dep = [x for x in subterms(end) if isinstance(x, tuple) and x and x[0] in ('call', 'icall', 'widen', 'uninit', 'mutated', 'field', 'deref')]
+        if dep:
+            bad = 'the end point of the trial parse, %s, depends on per-candidate state (%s): candidates are measured against different end points, so "parsed furthest" no longer compares like with like' % (
+                fmt_term(end)[:90], fmt_term(dep[0])[:60])
+            break
+        if not term_has(end, lambda x: isinstance(x, tuple) and x and x[0] == 'param'):
+            bad = 'the end point of the trial parse, %s, does not depend on the error position' % fmt_term(end)[:90]
+            break
+    if bad:
+        res.bad(R, 'same-end-point', loc_of(b, cbb), bad)
+    else:
+        res.ok(R, 'same-end-point', loc_of(b, cbb), 'every candidate is test-parsed up to %s (function inputs and constants only)' % fmt_term(end)[:60])
+
+
+def r69(facts, res):
+    """The forward move of the search (CPCTPlus::shift) may discard its successor only when the move made NO progress: every path
+    through shift() that pushes no neighbour must have established that no lexeme was consumed (new position <= old position).
+    Judging progress by the parse stack alone is not enough - reduce, reduce, shift on a left-recursive list ends with a stack
+    equal by value to the starting one - and a discarded successor removes every repair that continues through it."""
+    R = 'R6.9'
+    bs = [b for b in facts.lib_bodies(['lrpar']) if b.name == 'shift' and 'cpctplus::CPCTPlus' in b.path]
+    if len(bs) != 1:
+        res.lost(R, 'CPCTPlus::shift not found')
+        return
+    b = bs[0]
+    ps = Walker(b, facts, max_paths=512).run(0)
+    lc = b.calls_named('lr_cactus')
+    if len(lc) != 1 or not ps:
+        res.lost(R, 'expected one lr_cactus call in CPCTPlus::shift, found %d' % len(lc))
+        return
+    bad = None
+    npush = nskip = 0
+    for p in ps:
+        if p.end[0] != 'return':
+            continue
+        pushes = [e for e in p.calls(name='push')]
+        if pushes:
+            npush += 1
+            continue
+        nskip += 1
+        # some condition on the path says: position returned by lr_cactus (.0) is not greater than the node's position
+        noprog = False
+        for c, v in p.conds:
+            if not (isinstance(c, tuple) and c and c[0] == 'bin' and c[1] in ('Lt', 'Le', 'Gt', 'Ge', 'Eq', 'Ne') and isinstance(v, int)):
+                continue
+            def is_new(t):
+                return isinstance(t, tuple) and t and t[0] == 'field' and is_call(t[1], 'lr_cactus') and t[2] == 0
+            def is_old(t):
+                return isinstance(t, tuple) and len(t) > 3 and t[0] == 'field' and t[3] == 'laidx'
+            op = c[1] if v else {'Lt': 'Ge', 'Ge': 'Lt', 'Le': 'Gt', 'Gt': 'Le', 'Eq': 'Ne', 'Ne': 'Eq'}[c[1]]
+            a, d = strip_ref(c[2]), strip_ref(c[3])
+            if is_old(a) and is_new(d) and op in ('Ge', 'Eq'):       # old >= new
+                noprog = True
+            if is_new(a) and is_old(d) and op in ('Le', 'Eq'):       # new <= old
+                noprog = True
+        if not noprog:
+            bad = 'a path through shift() (blocks %s) discards the successor without having established that no lexeme was consumed: progress is judged by the parse stack alone' % p.blocks[:10]
+    if bad:
+        res.bad(R, 'progress-kept', loc_of(b, lc[0][0]), bad)
+    elif npush == 0:
+        res.lost(R, 'no path of CPCTPlus::shift pushes a neighbour')
+    else:
+        res.ok(R, 'progress-kept', loc_of(b, lc[0][0]), '%d paths push the successor; the %d that do not have tested that the input position did not advance' % (npush, nskip))
+
+
 def run(facts, res):
+    r68(facts, res)
+    r69(facts, res)
     r61(facts, res)
     r62(facts, res)
     r62b(facts, res)
